@@ -323,12 +323,21 @@ func DecodeExpression(expr hcl.Expression, ctx *hcl.EvalContext, val interface{}
 		panic(fmt.Sprintf("unsuitable DecodeExpression target: %s", err))
 	}
 
+	givenVal := srcVal
 	srcVal, err = convert.Convert(srcVal, convTy)
 	if err != nil {
+		problem := err.Error()
+		if givenVal.ContainsMarked() {
+			// A conversion error can name map keys and object attributes of
+			// the given value, and keys derived from marked values transfer
+			// their marks to the collection as a whole, so in this case we
+			// only state what was required.
+			problem = convTy.FriendlyNameForConstraint() + " required"
+		}
 		diags = append(diags, &hcl.Diagnostic{
 			Severity: hcl.DiagError,
 			Summary:  "Unsuitable value type",
-			Detail:   fmt.Sprintf("Unsuitable value: %s", err.Error()),
+			Detail:   fmt.Sprintf("Unsuitable value: %s", problem),
 			Subject:  expr.StartRange().Ptr(),
 			Context:  expr.Range().Ptr(),
 		})
